@@ -61,6 +61,12 @@ def gen_cases(rng, tier):
         for _i in range(rng.below(4)):
             st.append((rng.range(1, 3), rng.choice([0, 1, 32, 64, 252, 253, 254, 1000, rng.below(5000)])))
         add(rng.range(0, CONSENSUS_MAX), st)
+    # budgets straddling u32::MAX / 1000 = 4_294_967 weight units, where the budget scaled to milliweight saturates:
+    # a cost within the consensus maximum is then always within budget (stacks of ~4.29 MB: one item, or two halves)
+    for b in range(4294963, 4294973):
+        for st in ([(1, b - 56)], [(2, (b - 61) // 2)] if b % 2 else [(1, 7), (1, b - 62)]):
+            for c in (0, 1, 1000, CONSENSUS_MAX, CONSENSUS_MAX - 999, rng.range(0, CONSENSUS_MAX), 2**32 - 1):
+                add(c, st)
     # weight -> cost conversion for arbitrary 64-bit weights (saturation, monotonicity)
     ws = set([0, 1, 2, 999, 4000049, 4000050, 4000051, 4294966, 4294967, 4294968, 4294969, 5000000,
               2**32 - 1, 2**32, 2**32 + 1, 2**40, 2**63, 2**64 - 1])
